@@ -161,7 +161,15 @@ class TextReport:
         return out
 
     def levels(self):
-        return set(lv for (_c, _n, lv, _t) in self.findings())
+        """severity levels of every tagged finding of the report: the notes of the algorithm lines, and any ' -- [fail] ' / ' -- [warn] '
+        tag on a line of another section (security, general ...)"""
+        out = set(lv for (_c, _n, lv, _t) in self.findings())
+        for l in self.lines:
+            if l.startswith('(') and not _ALG.match(l):
+                m = re.search(r' -- \[(fail|warn)\] ', l)
+                if m:
+                    out.add(m.group(1))
+        return out
 
 
 def split_targets(stdout):
